@@ -14,7 +14,7 @@ TRUSTED_BASE = [
     "prepare_url / prepare_body / body serializers are used through their own contracts (URL composition is audited natively)",
 ]
 ASSUMPTIONS = ["arrays up to 3 elements and objects up to 2 properties with string elements (labelled bounded); element strings contain none of the style's delimiters"]
-NOT_DECIDED = ["WSGI / ASGI transports beyond the shared serialize_case", "Swagger 2.0 prepare_multipart (formData / collectionFormat parts)", "the multipart encoding itself (requests / urllib3, E4)"]
+NOT_DECIDED = ["WSGI / ASGI transports beyond the shared serialize_case", "the multipart encoding itself (requests / urllib3, E4)"]
 EXPLANATION = ("Each style encoder's output is proved equal to the wire form that the OpenAPI / RFC 6570 serialization table prescribes for (style, explode, type) - so the standard "
                "decoder recovers the value; serialize_case passes the query values through unchanged except {} -> '' and sets Content-Type to the case's media type.")
 
@@ -826,6 +826,53 @@ R.contract(
         "nothing_else_is_sent": "result[1] is None and (result[0] is None or all(f[0] in form_data for f in files_of(result))) and iff(result[0] is None, length(form_data) == 0)",
     },
     bounded_note="forms over the fields name / file (binary) / tags, three spellings of the raw definition, three matching media types",
+    replayable=False,
+)
+
+
+# ------------------------------------------------------------------------------------------------- Swagger 2.0 forms: each formData parameter is sent in the form its TYPE declares
+# E4 requests: in `files`, (name, (None, value)) is a plain form field, (name, value) a file upload (sent with `filename="<name>"`: a multipart decoder files it under
+# uploads, not under form fields); `data` is the urlencoded form.
+SW2 = "schemathesis.specs.openapi.schemas:SwaggerV20."
+PMS = "schemathesis.specs.openapi.parameters:"
+
+
+class _FormParameters(D):
+    """operation.body: one composite formData body declaring `name` (string), `tags` (array) and `file` (file)."""
+
+    def make(self, it, name, idx=()):
+        from pyvc.values import VObj
+
+        pcls = it.resolve_class(PMS + "OpenAPI20Parameter")
+        defs = [{"name": "name", "in": "formData", "type": "string"}, {"name": "tags", "in": "formData", "type": "array", "items": {"type": "string"}}, {"name": "file", "in": "formData", "type": "file"}]
+        composite = VObj(it.resolve_class(PMS + "OpenAPI20CompositeBody"), {"definition": [VObj(pcls, {"definition": d}) for d in defs], "media_type": "multipart/form-data"})
+        return [composite]
+
+
+R.nominal_methods["spec:Swagger2SchemaStub"] = {}
+R.contract(SW2 + "get_request_payload_content_types", args={"self": Opq("Any"), "operation": Opq("Any")}, trusted=True,
+           returns=lambda it, env: it.ghost.__setitem__("consumes", it.path.choose([(["multipart/form-data"], True), (["application/x-www-form-urlencoded"], True), ([], True)], "consumes")) or it.ghost["consumes"],
+           note="the operation's (or the document's) `consumes` list")
+R.contract(
+    SW2 + "prepare_multipart",
+    prop="C06",
+    args={"self": Obj(SW2.rstrip(".")), "form_data": DictOf(optional={"name": Opq("FieldValue"), "tags": ListOf(Opq("FieldValue"), [0, 1, 2], widen=False), "file": Opq("FieldValue")}),
+          "operation": Obj("spec:FormOperation", body=_FormParameters())},
+    ghost={"consumes": None},
+    raises=[],
+    ensures={
+        # a multipart form: plain fields as plain fields, array items one field each, only `type: file` parameters as uploads
+        "multipart_plain_fields_are_fields_not_uploads": "implies('multipart/form-data' in ghost('consumes') and 'name' in form_data, "
+                                                          "any(f[0] == 'name' and is_instance(f[1], 'tuple') and f[1][0] is None and f[1][1] is form_data['name'] for f in files_of(result)))",
+        "multipart_array_items_one_field_each": "implies('multipart/form-data' in ghost('consumes') and 'tags' in form_data, "
+                                                 "length([f for f in files_of(result) if f[0] == 'tags']) == length(form_data['tags']) and "
+                                                 "all(any(f[0] == 'tags' and f[1][0] is None and f[1][1] is item for f in files_of(result)) for item in form_data['tags']))",
+        "files_are_uploads_whatever_the_media_type": "implies('file' in form_data, any(f[0] == 'file' and f[1] is form_data['file'] for f in files_of(result)))",
+        # an urlencoded form: the non-file values go into `data`, as they are
+        "urlencoded_fields_go_into_data": "implies('multipart/form-data' not in ghost('consumes'), all(implies(n in form_data, result[1] is not None and n in result[1] and result[1][n] is form_data[n]) for n in ('name', 'tags')))",
+        "nothing_else_is_sent": "all(f[0] in form_data for f in files_of(result)) and (result[1] is None or all(n in form_data for n in result[1]))",
+    },
+    bounded_note="one form with a string, an array and a file parameter; three `consumes` lists",
     replayable=False,
 )
 
